@@ -290,6 +290,8 @@ type SX struct {
 	InlineStaticSelf bool
 	addrTaken map[types.Object]bool
 	loopID    int
+	fieldVars  map[string]*types.Var // scalar replacement: (struct made on this path, field) -> pseudo local
+	fieldInits map[*types.Var]Term   // its initial value
 	instArgs  []types.Type // type arguments of the generic function being inlined through a function value
 	fresh     int
 	budget    int
@@ -356,6 +358,97 @@ func (x *SX) finish(outs []outcome) []*Path {
 		paths = append(paths, &Path{Steps: o.st.steps, End: end, Vals: o.vals, Node: o.node, Why: o.st.why, Env: o.st.env})
 	}
 	return paths
+}
+
+// structObj describes a struct whose fields are kept like local variables (scalar replacement): one created by a literal on this
+// path, or a zero-valued struct local (`var w writer`). Only struct types of this package that are neither containers nor wrappers —
+// those are the heap the rules talk about.
+type structObj struct {
+	key string
+	lit *TLit
+}
+
+func (x *SX) localStruct(base Term) (structObj, bool) {
+	for {
+		switch b := base.(type) {
+		case TAddr:
+			base = b.X
+			continue
+		case TDeref:
+			base = b.X
+			continue
+		}
+		break
+	}
+	var so structObj
+	var typ types.Type
+	switch b := base.(type) {
+	case TLit:
+		if b.Fresh == 0 || b.Type == nil {
+			return so, false
+		}
+		bb := b
+		so, typ = structObj{key: fmt.Sprintf("lit%d", b.Fresh), lit: &bb}, b.Type
+	case TVar:
+		if b.Obj == nil || !isLocalVar(b.Obj) {
+			return so, false
+		}
+		so, typ = structObj{key: fmt.Sprintf("var%d", b.Obj.Pos())}, b.Obj.Type()
+	default:
+		return so, false
+	}
+	n, ok := typ.(*types.Named)
+	if !ok || n.Obj().Pkg() != x.c.Types || x.c.Inv().ContOf(n) != nil {
+		return so, false
+	}
+	if _, isStruct := n.Underlying().(*types.Struct); !isStruct {
+		return so, false
+	}
+	for _, w := range x.c.Inv().Wrappers {
+		if w.Obj() == n.Obj() {
+			return so, false // scalar wrappers are fields of spines
+		}
+	}
+	return so, true
+}
+
+// fieldVar: the pseudo local standing for field f of the struct so; its initial value is remembered for loop heads.
+func (x *SX) fieldVar(so structObj, f *types.Var) *types.Var {
+	if x.fieldVars == nil {
+		x.fieldVars = map[string]*types.Var{}
+		x.fieldInits = map[*types.Var]Term{}
+	}
+	k := so.key + "." + f.Name()
+	if v, ok := x.fieldVars[k]; ok {
+		return v
+	}
+	v := types.NewVar(f.Pos(), x.c.Types, "·"+f.Name()+"@"+so.key, f.Type())
+	x.fieldVars[k] = v
+	x.fieldInits[v] = x.fieldInit(so, f)
+	return v
+}
+
+// fieldInit: the value the literal gives field f (explicit element or the zero value).
+func (x *SX) fieldInit(so structObj, f *types.Var) Term {
+	if so.lit != nil {
+		lit := *so.lit
+		if cl, ok := lit.Node.(*ast.CompositeLit); ok {
+			st, _ := lit.Type.Underlying().(*types.Struct)
+			for i, el := range cl.Elts {
+				if i >= len(lit.Elts) {
+					break
+				}
+				if kv, ok := el.(*ast.KeyValueExpr); ok {
+					if id, ok := kv.Key.(*ast.Ident); ok && id.Name == f.Name() {
+						return lit.Elts[i]
+					}
+				} else if st != nil && i < st.NumFields() && st.Field(i) == f {
+					return lit.Elts[i]
+				}
+			}
+		}
+	}
+	return x.zero(f.Type())
 }
 
 func (x *SX) noteAddrTaken(n ast.Node) {
@@ -427,6 +520,14 @@ func (x *SX) assign(lhs ast.Expr, val Term, st *sxState, node ast.Node) {
 			st.bump()
 			st.steps = append(st.steps, Step{Kind: "store", LHS: TVar{o}, RHS: val, Node: node, Heap: st.heap})
 			return
+		}
+	}
+	if se, ok := unparen(lhs).(*ast.SelectorExpr); ok {
+		if sel := x.c.Info.Selections[se]; sel != nil && sel.Kind() == types.FieldVal && len(sel.Index()) == 1 {
+			if so, ok := x.localStruct(x.eval(se.X, st)); ok {
+				st.env[x.fieldVar(so, sel.Obj().(*types.Var))] = val // a field of a struct made on this path: kept like a local
+				return
+			}
 		}
 	}
 	dst := x.lvalue(lhs, st)
@@ -1068,14 +1169,14 @@ func (x *SX) forStmt(v *ast.ForStmt, st *sxState) []outcome {
 		o1, rec := x.forOnce(v, oc, id, 1, extra)
 		for k := 0; k < 4; k++ {
 			// variables assigned by code that is not syntactically in the loop (an inlined function value that captures them) are loop-carried too
-			more := missedCarried(rec, oc.st.env)
+			more := missedCarried(rec, oc.st.env, x.fieldInits)
 			if len(more) == 0 {
 				break
 			}
 			extra = append(extra, more...)
 			o1, rec = x.forOnce(v, oc, id, 1, extra)
 		}
-		if len(missedCarried(rec, oc.st.env)) > 0 {
+		if len(missedCarried(rec, oc.st.env, x.fieldInits)) > 0 {
 			x.unsupported(oc.st, "loop-carried variables could not be determined")
 		}
 		if loopQuiet(rec) {
@@ -1108,7 +1209,7 @@ func loopQuiet(rec *LoopRec) bool {
 
 // missedCarried: variables bound before the loop whose value at the end of some iteration differs from the value the iteration
 // started with although the loop head did not treat them as loop-carried.
-func missedCarried(rec *LoopRec, before map[types.Object]Term) []types.Object {
+func missedCarried(rec *LoopRec, before map[types.Object]Term, fieldInits map[*types.Var]Term) []types.Object {
 	set := map[types.Object]bool{}
 	for _, p := range rec.Iter {
 		if p.End != "fall" && p.End != "continue" {
@@ -1116,6 +1217,24 @@ func missedCarried(rec *LoopRec, before map[types.Object]Term) []types.Object {
 		}
 		for o, t := range p.Env {
 			h, had := rec.HeadEnv[o]
+			if fv, isVar := o.(*types.Var); isVar && fieldInits != nil {
+				if init, isField := fieldInits[fv]; isField {
+					// a field of a struct made on this path, first written inside the loop: carried from its initial value
+					if !had {
+						if !sameTerm(init, t) {
+							set[o] = true
+						}
+						continue
+					}
+					if lv, ok := h.(TLoop); ok && lv.ID == rec.ID && lv.Obj == o {
+						continue
+					}
+					if !sameTerm(h, t) {
+						set[o] = true
+					}
+					continue
+				}
+			}
 			if !had {
 				continue
 			}
@@ -1151,6 +1270,10 @@ func (x *SX) forOnce(v *ast.ForStmt, oc outcome, id int, bump int, extra []types
 	for _, o := range carried {
 		if t, ok := oc.st.env[o]; ok && !inside(o) {
 			rec.Init[o] = t
+		} else if fv, isVar := o.(*types.Var); isVar {
+			if init, isField := x.fieldInits[fv]; isField {
+				rec.Init[o] = init
+			}
 		}
 	}
 	head := oc.st.clone()
@@ -1206,14 +1329,14 @@ func (x *SX) rangeStmt(v *ast.RangeStmt, st *sxState) []outcome {
 		var extra []types.Object
 		o1, rec := x.rangeOnce(v, ev, id, 1, extra)
 		for k := 0; k < 4; k++ {
-			more := missedCarried(rec, ev.st.env)
+			more := missedCarried(rec, ev.st.env, x.fieldInits)
 			if len(more) == 0 {
 				break
 			}
 			extra = append(extra, more...)
 			o1, rec = x.rangeOnce(v, ev, id, 1, extra)
 		}
-		if len(missedCarried(rec, ev.st.env)) > 0 {
+		if len(missedCarried(rec, ev.st.env, x.fieldInits)) > 0 {
 			x.unsupported(ev.st, "loop-carried variables could not be determined")
 		}
 		if loopQuiet(rec) {
@@ -1232,6 +1355,10 @@ func (x *SX) rangeOnce(v *ast.RangeStmt, ev evalOut, id int, bump int, extra []t
 	for _, o := range append(x.assignedIn(v.Body), extra...) {
 		if t, ok := ev.st.env[o]; ok && !inside(o) {
 			rec.Init[o] = t
+		} else if fv, isVar := o.(*types.Var); isVar {
+			if init, isField := x.fieldInits[fv]; isField {
+				rec.Init[o] = init
+			}
 		}
 	}
 	head := ev.st.clone()
@@ -1374,7 +1501,20 @@ func (x *SX) evalFork(e ast.Expr, st *sxState) []evalOut {
 		if sel := c.Info.Selections[v]; sel != nil {
 			switch sel.Kind() {
 			case types.FieldVal:
-				return x.map1(v.X, st, func(t Term, st *sxState) Term { return TSel{X: t, Field: sel.Obj().(*types.Var), Epoch: st.heap} })
+				return x.map1(v.X, st, func(t Term, st *sxState) Term {
+					f := sel.Obj().(*types.Var)
+					if so, ok := x.localStruct(t); ok && len(sel.Index()) == 1 {
+						fv := x.fieldVar(so, f)
+						if _, isStruct := f.Type().Underlying().(*types.Struct); isStruct {
+							return TDeref{X: TAddr{TVar{fv}}, Epoch: st.heap} // an embedded value with methods (a strings.Builder): identified by its address
+						}
+						if cur, ok := st.env[fv]; ok {
+							return cur
+						}
+						return x.fieldInits[fv]
+					}
+					return TSel{X: t, Field: f, Epoch: st.heap}
+				})
 			case types.MethodVal:
 				return x.map1(v.X, st, func(t Term, st *sxState) Term {
 					return TCall{Fun: sel.Obj().(*types.Func), Name: "methodvalue", Recv: t, Epoch: -1}
